@@ -81,6 +81,8 @@ claim("C02",
       "pad codewords follow the 253-state rule (C08); EDIFACT: decodeEdifactSegment is proved to end without consuming anything when two or fewer codewords remain (5.2.8.2); "
       "X12: x12EncodeChar appends exactly the table value of the character and fails exactly on characters outside the set, the value table is inverted by the decoder's table (all 256 bytes), and x12HandleEOD hands the buffered values back, "
       "selects a symbol, and omits the unlatch codeword 254 exactly when the symbol is full with nothing left or one character and one codeword remain; "
+      "C40/Text/X12 triplets: c40EncodeToCodewords packs 1600*c1+40*c2+c3+1 high byte first, parseTwoBytes recovers the three values, and the two are inverse for all values below 40 (lemma); "
+      "decodeBase256Segment allocates its buffer with a valid size and reads a byte only while eight bits are available (partial check); "
       "Decoder.correctErrors passes every codeword of a block to the Reed-Solomon decoder in order and copies back only the data codewords; the parity blocks and their interleaving on the encoder side are C08; symbol choice is C13. "
       "Not decided: EncodeHighLevel and lookAheadTest (mode switching, termination), the C40/Text/EDIFACT/ASCII encoders and their end-of-data rules, decodeAsciiSegment/decodeC40Segment/decodeTextSegment/decodeBase256Segment against the encoders, "
       "DataBlocks_getDataBlocks de-interleaving, error propagation in Decoder.Decode and EncodeHighLevel. Pre-screened suspicions in this area (extended-ASCII characters returned as raw bytes, swallowed encoder errors) were not turned into checks and are listed as open in DESIGN.md.",
@@ -154,11 +156,14 @@ claim("C12",
       "hint maps are unmodelled (lookups return arbitrary well-typed values: every hint value is covered); strconv/fmt stubs assumed non-panicking; allocation assumed to succeed; "
       "termination only where decreases clauses are given.")
 claim("C06",
-      "Narrow claim on bit readers and one row-level decoder: BitSource.ReadBits/Available are proved panic-free for every state and argument, to fail exactly when numBits is outside 1..32 or exceeds the "
-      "available bits, to leave the position untouched on failure and to advance it by exactly numBits on success; code39DecodeExtended is proved panic-free for every byte string and to report only "
-      "FormatException (a trailing escape used to panic: fixed); GridSampler_checkAndNudgePoints is proved panic-free with only NotFoundException (C19). "
-      "Not decided: the QR / Data Matrix / Aztec bit-stream parsers and decoders, the 1-D row decoders, the detectors, the binarisers, the multi reader.",
-      "external xerrors/fmt constructors assumed non-panicking; termination only where decreases clauses are given.")
+      "Panic-freedom and typed errors of the decoding steps that are under contract, for every input: BitSource.ReadBits/Available (value, position, exact failure conditions, 0 on failure); "
+      "QR: NewBitMatrixParser accepts exactly square matrices of a QR dimension (a non-square matrix used to reach Flip out of range: fixed), ReadVersion reports only versions that fit the matrix, "
+      "Version_decodeVersionInformation / doDecodeFormatInformation / Version_GetVersionForNumber, parseECIValue, decodeKanjiSegment, decodeNumericSegment (thorough tier: consumes exactly the payload of `count` digits and appends `count` ASCII digits), "
+      "decodeByteSegment and Data Matrix decodeBase256Segment (partial: buffer sizes, indexes, bits consumed), decodeEdifactSegment, parseTwoBytes, both Decoder.correctErrors; "
+      "1-D: RecordPattern, RecordPatternInReverse, the three best-match digit decoders, code39DecodeExtended (a trailing escape used to panic: fixed), Codabar toNarrowWidePattern; "
+      "Aztec getEncodedData (partial: buffer capacity and unregistered ECI; both used to panic: fixed); GridSampler_checkAndNudgePoints (C19). "
+      "Not decided: the remaining bit-stream parsers (QR alphanumeric/Hanzi/structured append, Data Matrix ASCII/C40/Text/X12 segments), the row decoders as a whole, the detectors, the binarisers, the Reed-Solomon decoder, the multi reader.",
+      "external xerrors/fmt/x-text calls assumed non-panicking; partial checks (opt check=...) cover only the named obligation kinds; termination only where decreases clauses are given.")
 
 claim("C18",
       "Frame proof of the mechanism the property names (no schedule exploration): every store, map update and append/copy destination in every function reachable (class-hierarchy call graph) "
